@@ -51,6 +51,16 @@ Theorem C06_bonded_slash_step : forall s v f s',
 Proof. exact bonded_slash_step. Qed.
 Print Assumptions C06_bonded_slash_step.
 
+(* no redelegation out of v pending (no key of v in the per-source index): the callback changes no
+   delegation record and no validator's delegator shares — a position's value moves only through the
+   validator shares of theorem (b) *)
+Theorem C06_positions_untouched_without_pending_redelegations : forall s v f s',
+  ksorted (valinfos s) -> kfilter (kprefix [v]) (redelidx s) = [] ->
+  slash_validator v f s = Ok tt s' ->
+  delegations s' = delegations s /\ forall w, vi_dshares (vinfo_or_empty s' w) = vi_dshares (vinfo_or_empty s w).
+Proof. exact slash_without_pending_redelegations_leaves_positions. Qed.
+Print Assumptions C06_positions_untouched_without_pending_redelegations.
+
 (* the two value factors, in exact rational arithmetic.  The token value of validator w's stake
    in an asset is T * s_w / S.  With c = f * s_v removed from s_v and from S (theorem above) and
    T unchanged (C06_staked_totals_untouched):
